@@ -10,6 +10,7 @@ mod cmd;
 mod song;
 mod filter;
 mod tags;
+mod typed;
 mod util;
 
 use std::io::{BufRead, Write};
@@ -35,6 +36,7 @@ const FAMILIES: &[Family] = &[
     Family { name: "cmd", gen: cmd::gen, exec: cmd::exec },
     Family { name: "song", gen: song::gen, exec: song::exec },
     Family { name: "filter", gen: filter::gen, exec: filter::exec },
+    Family { name: "typed", gen: typed::gen, exec: typed::exec },
 ];
 
 fn main() {
